@@ -100,7 +100,7 @@ func WalkNodesInStream$1
   modifies heap(shared.TreeNode), maps(string, *shared.TreeNode), heap(balance.balanceSingleReporter), arrays(float64), maps(string, shared.AccValues), maps(string, bool), maps(string, float64)
   dyncall 1 filter.LogNodeFilter
   requires @reporter RepInv(r) && (filter == nil || *filter != nil)
-  modifies ghost(accKey, accP, accN, accH, bufSticky, sinkFailed, sinkPend, prLen, prSink, prArg, prArgs, tnodes, tdepth, tmax, tmapOf, jlen)
+  modifies ghost(accKey, accP, accN, accH, bufSticky, sinkFailed, sinkPend, prLen, prSink, prArg, prArgs, csvLen, csvW, csvN, csvRow, tnodes, tdepth, tmax, tmapOf, jlen)
   ensures @rep-buf [C17 C08] r == old(r) && RepBuf(r) == old(RepBuf(r))
   ensures @rep-sink [C17] BufStep(RepBuf(r))
   ensures @rep-inv [C17 C08] RepInv(r)
@@ -130,7 +130,7 @@ func WalkNodesInStream returns (err)
   calluse ParseStreamCallback#1 walk
   requires @reporter RepInv(r) && (filter == nil || *filter != nil)
   modifies heap(shared.TreeNode), maps(string, *shared.TreeNode), heap(balance.balanceSingleReporter), arrays(float64), maps(string, shared.AccValues), maps(string, bool), maps(string, float64)
-  modifies ghost(cbLen, cbErr, cbNode, cbStop, cbRet, cbLineNo, cbLine, cbHeader, cbElems, cbNElems, scRd, scPos, privLo, evOf, accKey, accP, accN, accH, bufSticky, sinkFailed, sinkPend, prLen, prSink, prArg, prArgs, tnodes, tdepth, tmax, tmapOf, jlen)
+  modifies ghost(cbLen, cbErr, cbNode, cbStop, cbRet, cbLineNo, cbLine, cbHeader, cbElems, cbNElems, scRd, scPos, privLo, evOf, accKey, accP, accN, accH, bufSticky, sinkFailed, sinkPend, prLen, prSink, prArg, prArgs, csvLen, csvW, csvN, csvRow, tnodes, tdepth, tmax, tmapOf, jlen)
   let B := RepBuf(r)
   ensures @reporter [C17 C08] RepInv(r) && RepBuf(r) == B && BufStep(B)
   let rd := payload(logStream)
@@ -152,7 +152,7 @@ fun CbCC(f int) uint8
 type utils.ResolvedCallback(nl) returns (err)
   requires @book DBIs(nl) && TreeInv()
   modifies *
-  modifies ghost(cbLen, cbErr, cbNode, cbStop, cbRet, cbLineNo, cbLine, cbHeader, cbElems, cbNElems, scRd, scPos, privLo, evOf, accKey, accP, accN, accH, bufSink, bufSticky, sinkFailed, sinkPend, prLen, prSink, prArg, prArgs, tnodes, tdepth, tmax, tmapOf, jlen)
+  modifies ghost(cbLen, cbErr, cbNode, cbStop, cbRet, cbLineNo, cbLine, cbHeader, cbElems, cbNElems, scRd, scPos, privLo, evOf, accKey, accP, accN, accH, bufSink, bufSticky, sinkFailed, sinkPend, prLen, prSink, prArg, prArgs, csvLen, csvW, csvN, csvRow, tnodes, tdepth, tmax, tmapOf, jlen)
   ensures @log-unreadable [C10] err == nil ==> !RdFailed(CbLog(self))
   ensures @log-malformed [C09] err == nil ==> (forall i int :: {RdLine(CbLog(self), i)} 0 <= i && i < RdN(CbLog(self)) ==> !Malformed(CbLog(self), i, CbCC(self)))
   ensures @reports-loss [C17] err == nil ==> (sinkFailed[CbOut(self)] ==> old(sinkFailed[CbOut(self)])) && sinkPend[CbOut(self)] == 0
@@ -168,7 +168,7 @@ func WithResolvedDatabase returns (err)
   funcparam cb utils.ResolvedCallback
   calluse Resolve#1 any
   modifies *
-  modifies ghost(cbLen, cbErr, cbNode, cbStop, cbRet, cbLineNo, cbLine, cbHeader, cbElems, cbNElems, scRd, scPos, privLo, evOf, accKey, accP, accN, accH, bufSink, bufSticky, sinkFailed, sinkPend, prLen, prSink, prArg, prArgs, tnodes, tdepth, tmax, tmapOf, jlen)
+  modifies ghost(cbLen, cbErr, cbNode, cbStop, cbRet, cbLineNo, cbLine, cbHeader, cbElems, cbNElems, scRd, scPos, privLo, evOf, accKey, accP, accN, accH, bufSink, bufSticky, sinkFailed, sinkPend, prLen, prSink, prArg, prArgs, csvLen, csvW, csvN, csvRow, tnodes, tdepth, tmax, tmapOf, jlen)
   let rd := payload(dbStream)
   let cc := pc.CommentChar
   ensures @book-unreadable [C10] err == nil ==> !RdFailed(rd)
@@ -203,7 +203,7 @@ func WalkWithReporter returns (err)
   requires @sink rpCb != nil && rpc.Output != nil && !typeis(rpc.Output, "*bufio.Writer") && !typeis(rpc.Output, "*encoding/csv.Writer") && TreeInv()
   funcparam rpCb utils.ReporterCallback
   modifies *
-  modifies ghost(cbLen, cbErr, cbNode, cbStop, cbRet, cbLineNo, cbLine, cbHeader, cbElems, cbNElems, scRd, scPos, privLo, evOf, accKey, accP, accN, accH, bufSink, bufSticky, sinkFailed, sinkPend, prLen, prSink, prArg, prArgs, tnodes, tdepth, tmax, tmapOf, jlen)
+  modifies ghost(cbLen, cbErr, cbNode, cbStop, cbRet, cbLineNo, cbLine, cbHeader, cbElems, cbNElems, scRd, scPos, privLo, evOf, accKey, accP, accN, accH, bufSink, bufSticky, sinkFailed, sinkPend, prLen, prSink, prArg, prArgs, csvLen, csvW, csvN, csvRow, tnodes, tdepth, tmax, tmapOf, jlen)
   let out := payload(rpc.Output)
   let lrd := payload(logStream)
   let drd := payload(dbStream)
